@@ -72,6 +72,7 @@ type syncMapKey struct {
 }
 type syncMapMiss struct{ m *mapV }
 type threadExit struct{ id int }
+type chanSlots struct{ ch *chanV } // receive -> later send (free slots of a buffered channel)
 
 func (in *Interp) tid() int {
 	if in.cur == nil {
